@@ -94,18 +94,24 @@ impl PrettyPrint {
         }
 
         // HACK: Use the text line so we have the same tab spacing
-        let mut base: String = text
-            .get(first_non_ws..)
-            .unwrap_or_default()
+        let base: String = text
             .chars()
+            .skip(first_non_ws)
             .map(|c| if c.is_whitespace() { c } else { ' ' })
             .collect();
 
-        // Arrows pointing the the relevant position
+        // Arrows pointing the the relevant position. The line on disk may be
+        // shorter than the reported columns (the file can change between the
+        // analysis and this re-read), so build the marker line by characters
+        // instead of slicing at an offset that may not exist.
         let end = end + 1;
         let arrows = "^".repeat(end.saturating_sub(start));
         let offset = start.saturating_sub(first_non_ws);
-        base.replace_range(offset.., &arrows);
+        let mut marker: String = base.chars().take(offset).collect();
+        let missing = offset - marker.chars().count();
+        marker.push_str(&" ".repeat(missing));
+        marker.push_str(&arrows);
+        let base = marker;
 
         let aligned = text.trim();
         format!("{spc} |\n {line} | {aligned}\n{spc} | {base}\n")
